@@ -201,11 +201,9 @@ func (c *Conn) readHeaderFrom(r io.Reader) (int, error) {
 	}
 
 	length := int(uint32(header[0]) | uint32(header[1])<<8 | uint32(header[2])<<16)
-	if length == 0 {
-		c.sequence++
-		return 0, nil
-	}
 
+	// an empty frame (empty payload, or the terminator after a full-size frame)
+	// carries a sequence id like any other frame
 	sequence := uint8(header[3])
 	if sequence != c.sequence {
 		return 0, fmt.Errorf("invalid sequence, expected %v got %v", c.sequence, sequence)
